@@ -42,7 +42,8 @@ RULE = ("every field with a realm in the compiled UTEST schema (thorough: also F
         "directly and through the field object created by the metadata (create_field; the specialisation's own is_valid() / "
         "get_rlm_idx() reached by dynamic_cast to the exact Field<T,tag>, the virtual get_rlm_idx(), print_field/print); string "
         "probes include members followed by space / tab / comma / other separators and further text, member + member, members "
-        "containing spaces and their tokens; fields without a realm; synthetic realms also through typed Field<T,N>(value, &realm) "
+        "containing spaces and their tokens, members followed / preceded by a NUL byte or other non-printable bytes (NUL-bearing "
+        "values reach the field through the typed API -- Field<f8String,tag>(const f8String&, rlm) and set() -- so the byte survives); fields without a realm; synthetic realms also through typed Field<T,N>(value, &realm) "
         "objects for int, char, string and double; plus synthetic set and range realms (char, int, string, "
         "double; sizes 0..40; a malformed unsorted stream) with probes at members +-1. Probes that are non-members below the maximum (the "
         "zone of the defect fixed by 63dae2a) are kept on separate lines. non-trivial = realm with >= 2 members and >= 2 probes; "
@@ -159,6 +160,12 @@ def probes_for(realm, rng, tier):
                 prio.append(m + sep)
                 prio.append(m + sep + other)
                 prio.append(sep + m)
+            # NUL and other non-printable bytes: a std::string value carries its length, "CS\\0junk" is not "CS"
+            for junk in (b"\x00", b"\x00junk", b"\x00\x00\x00", b"\x01", b"\x7f", b"\xff", b"\x00" + other):
+                prio.append(m + junk)
+            prio.append(b"\x00" + m)
+            prio.append(b"\x01" + m)
+            prio.append(m[:1] + b"\x00" + m[1:])
             prio.append(m + b"  ")
             prio.append(m + b" x")
             prio.append(m + b" " + m)
@@ -172,9 +179,9 @@ def probes_for(realm, rng, tier):
                         prio.append(sep.join(parts[i:]))
                     prio.append(m.replace(sep, b""))
                     prio.append(m.replace(sep, sep + sep))
-        prio = [b for b in uniq(prio) if 0 not in b]
+        prio = uniq(prio + [b"\x00", b"\x00\x00", b"\x01", b"\xff"])
         realm["_prio"] = set(enc_s(b) for b in prio)
-        return [enc_s(b) for b in uniq(prio + out) if 0 not in b]
+        return [enc_s(b) for b in uniq(prio + out)]
     return []
 
 
@@ -230,12 +237,12 @@ def rand_elem(ty, rng):
         k = max(0, min(k, 0x7fefffffffffffff))
         return k if rng.random() < 0.6 else -k
     n = rng.choice((0, 1, 1, 2, 2, 3, 5))
-    return bytes(rng.choice(b"ABCab01~") for _ in range(n))
+    return bytes(rng.choice(b"ABCab01~\x00\x01\xff") for _ in range(n))
 
 
 def neighbours(ty, k):
     if ty == "s":
-        out = [k, k + b"A", k[:-1], k + b"\x7f"]
+        out = [k, k + b"A", k[:-1], k + b"\x7f", k + b"\x00", k + b"\x00A", b"\x00" + k]
         if k:
             for d in (-1, 1):
                 c = k[-1] + d
